@@ -116,8 +116,16 @@ __CPROVER_ensures((VF_BN_OLDVAL(bn) == 0 || n <= 1 || __CPROVER_old(bn->digits) 
  *   d == 0 -> EINVAL.  Otherwise 0 or EOVERFLOW; on success quotient and remainder are exact.
  *   remainder == NULL: quotient only; remainder == bn: bn receives the remainder (bn_mod);
  *   bn == d: quotient 1, remainder 0.
- *   EOVERFLOW (as coded) only when the dividend fills its capacity and cannot be normalised, or
- *   when `remainder` has fewer digits of capacity than the remainder needs. */
+ *   EOVERFLOW (as coded) exactly when
+ *     - bn > d and the dividend, shifted left by the leading zeros of d's top digit (Knuth D
+ *       normalisation), does not fit bn's capacity:  (bn << clz(d_top)) >= 2^(W*count), or
+ *     - a separate `remainder` has fewer digits of capacity than the remainder needs
+ *       (only possible if remainder->count < d->digits).
+ * Quotient and remainder are stated multiplication-side (q * d + r == n, r < d); only the
+ * form remainder == bn, where the quotient is not returned, uses `%`. */
+#define VF_DIV_DTOP(d)	__CPROVER_old((d)->num[((d)->digits != 0) ? ((d)->digits - 1) : 0])
+#define VF_DIV_NOFIT(bn, d)	(VF_BN_OLDVAL(bn) > VF_BN_OLDVAL(d) &&				\
+	(VF_BN_OLDVAL(bn) << vf_d_clz(VF_DIV_DTOP(d))) >= VF_BN_CAP(*(bn)))
 static inline int
 bn_div(bn_p bn, bn_p d, bn_p remainder)
 __CPROVER_requires(VF_BN_BINOP_PRE(bn, d))
@@ -126,17 +134,20 @@ __CPROVER_requires(remainder == NULL || remainder == bn ||
      !__CPROVER_same_object(remainder, bn) && !__CPROVER_same_object(remainder, d)))
 __CPROVER_assigns(VF_BN_FRAME(bn))
 __CPROVER_assigns(remainder != NULL && remainder != bn: VF_BN_FRAME(remainder))
+/* decision */
 __CPROVER_ensures(__CPROVER_return_value == 0 || __CPROVER_return_value == EINVAL || __CPROVER_return_value == EOVERFLOW)
 __CPROVER_ensures((__CPROVER_return_value == EINVAL) == (VF_BN_OLDVAL(d) == 0))
-__CPROVER_ensures(__CPROVER_return_value == EOVERFLOW ==> ((__CPROVER_old(bn->digits) == bn->count &&
-    VF_BN_OLDVAL(bn) > VF_BN_OLDVAL(d)) ||
+__CPROVER_ensures((VF_BN_OLDVAL(d) != 0 && VF_DIV_NOFIT(bn, d)) ==> __CPROVER_return_value == EOVERFLOW)
+__CPROVER_ensures(__CPROVER_return_value == EOVERFLOW ==> (VF_DIV_NOFIT(bn, d) ||
     (remainder != NULL && remainder != bn && remainder->count < __CPROVER_old(d->digits))))
+/* value */
 __CPROVER_ensures((__CPROVER_return_value == 0 && remainder != bn) ==> (VF_BN_WF(*bn) &&
-    VF_BN_VAL(*bn) == VF_BN_OLDVAL(bn) / VF_BN_OLDVAL(d)))
+    VF_BN_VAL(*bn) * VF_BN_OLDVAL(d) <= VF_BN_OLDVAL(bn) &&
+    VF_BN_OLDVAL(bn) - VF_BN_VAL(*bn) * VF_BN_OLDVAL(d) < VF_BN_OLDVAL(d)))
+__CPROVER_ensures((__CPROVER_return_value == 0 && remainder != NULL && remainder != bn) ==> (VF_BN_WF(*remainder) &&
+    VF_BN_VAL(*bn) * VF_BN_OLDVAL(d) + VF_BN_VAL(*remainder) == VF_BN_OLDVAL(bn)))
 __CPROVER_ensures((__CPROVER_return_value == 0 && remainder == bn) ==> (VF_BN_WF(*bn) &&
     VF_BN_VAL(*bn) == VF_BN_OLDVAL(bn) % VF_BN_OLDVAL(d)))
-__CPROVER_ensures((__CPROVER_return_value == 0 && remainder != NULL && remainder != bn) ==> (VF_BN_WF(*remainder) &&
-    VF_BN_VAL(*remainder) == VF_BN_OLDVAL(bn) % VF_BN_OLDVAL(d)))
 ;
 
 #endif /* !VF_REPLAY */
